@@ -85,6 +85,6 @@ class BaseStyle(Plugin):
             citations = list(bib_data.entries.keys())
         citations = bib_data.add_extra_citations(citations, self.min_crossrefs)
         entries = [bib_data.entries[key] for key in citations]
-        formatted_entries = self.format_entries(entries)
+        formatted_entries = self.format_entries(entries, bib_data)
         formatted_bibliography = FormattedBibliography(formatted_entries, style=self, preamble=bib_data.preamble)
         return formatted_bibliography
